@@ -1,22 +1,25 @@
 (* C05: the link between the renderer model (Model/RenderExpr.v, rexpr) and the abstract
-   precedence-climbing grammar (Spec/Pratt.v), for the operator fragment of the expression type.
+   precedence-climbing grammar with ternary forms (Spec/PrattT.v), for the operator fragment of the
+   expression type.
 
-   Fragment: trees built from NOT and from binary operators that have a level in the dialect's
-   table (Spec/Prec.v) and are not part of a ternary form (BETWEEN .. AND .., LIKE .. ESCAPE ..,
-   the rewritten IN ()), over operands that are written as one primary expression (column, value,
-   tuple, function call, sub-query, keyword, CASE, constant).  For every such tree, of any depth:
+   Fragment: trees built from NOT, from the binary operators that have a level in the dialect's table
+   (Spec/Prec.v) - LIKE .. ESCAPE .. included, ESCAPE being an operator just above LIKE - and from
+   x [NOT] BETWEEN lo AND hi (the builder's encoding EBinary x BBetween (EBinary lo BAnd hi)), over
+   operands that are written as one primary expression (column, value, tuple, function call, sub-query,
+   keyword, CASE, constant).  Not in the fragment: the rewritten IN (), operators without a level in
+   the dialect, AsEnum / raw custom text as operands.  For every such tree, of any depth:
 
-   (1) the script rexpr writes IS the abstract rendering of the tree's skeleton under the
-       parenthesis policy read off the code's decision tables, token by token
-       (rexpr_is_abstract_rendering);
-   (2) if every row of the decision tables is safe (ParenRows.bad_rows = [], which C05_all_rows_safe
+   (1) the script rexpr writes IS the abstract rendering of the tree's skeleton under the parenthesis
+       policy read off the code's decision tables, token by token (rexpr_is_abstract_rendering);
+   (2) if every row of the decision tables is safe (ParenRows.bad_rows = [], which all_rows_safe
        establishes for the tables executed from the code), that token list parses, under the
        dialect's levels, to exactly the skeleton (fragment_parses_back).
 
-   What stays outside: that the engine lexes the text of an atom as one primary expression and
-   the operator spellings as the operators they name (lexical, C03/C04/C16 and the re-parse
-   oracle), and the ternary forms (covered by the finite rows SBetweenLo/Hi and by the oracle). *)
-Require Import SQV.Spec.Pratt SQV.Proofs.PrattProofs.
+   Operators of the abstract grammar are Prec.sop: SBin o for a binary operator, SBetweenAnd for the
+   AND that separates the bounds of BETWEEN.  What stays outside: that the engine lexes the text of an
+   atom as one primary expression and the operator spellings as the operators they name (lexical,
+   C03/C04/C16 and the re-parse oracle). *)
+Require Import SQV.Spec.PrattT SQV.Proofs.PrattTProofs.
 Require Import SQV.Model.Str SQV.Model.Escape SQV.Model.Value SQV.Model.Expr SQV.Model.Writer
   SQV.Model.RenderExpr SQV.Model.ExprTablesInst SQV.Spec.Prec SQV.Spec.ParenRows.
 From Coq Require Import Lia String Arith.
@@ -29,18 +32,15 @@ Variable is_alpha : N -> bool.
 Variable b : backend.
 Variable T : etables.
 
-Notation pexpr := (Pratt.expr (expr Q) binop).
-Notation ptok := (Pratt.tok (expr Q) binop).
-Notation EA := (Pratt.EA (expr Q) binop).
-Notation EN := (Pratt.EN (expr Q) binop).
-Notation EB := (Pratt.EB (expr Q) binop).
+Notation pexpr := (PrattT.expr (expr Q) sop).
+Notation ptok := (PrattT.tok (expr Q) sop).
+Notation EA := (PrattT.EA (expr Q) sop).
+Notation EN := (PrattT.EN (expr Q) sop).
+Notation EB := (PrattT.EB (expr Q) sop).
 
 (* ---- the fragment ---- *)
 Definition frag_op (o : binop) : bool :=
-  match o with
-  | BBetween | BNotBetween | BEscape => false
-  | _ => match level b o with Some _ => true | None => false end
-  end.
+  match level b o with Some _ => true | None => false end.
 
 Definition primary (e : expr Q) : bool :=
   match e with
@@ -49,9 +49,15 @@ Definition primary (e : expr Q) : bool :=
   | _ => false
   end.
 
+(* a BETWEEN carries both bounds, and only a BETWEEN may have a bare AND as its right operand's
+   encoding; an ESCAPE pair stands to the right of LIKE / NOT LIKE only *)
+Definition is_and_expr (r : expr Q) : bool := match r with EBinary _ BAnd _ => true | _ => false end.
+Definition between_shape (o : binop) (r : expr Q) : bool :=
+  if is_between o then is_and_expr r else true.
+
 Fixpoint frag (e : expr Q) : bool :=
   match e with
-  | EBinary l o r => frag_op o && negb (is_empty_in Q o r) && frag l && frag r
+  | EBinary l o r => frag_op o && negb (is_empty_in Q o r) && between_shape o r && frag l && frag r
   | ENot x => frag x
   | _ => primary e
   end.
@@ -59,57 +65,76 @@ Fixpoint frag (e : expr Q) : bool :=
 (* ---- skeleton, policy and levels ---- *)
 Fixpoint skel (e : expr Q) : pexpr :=
   match e with
-  | EBinary l o r => EB (skel l) o (skel r)
+  | EBinary l o r =>
+      match r with
+      | EBinary lo BAnd hi =>
+          if is_between o then EB (skel l) (SBin o) (EB (skel lo) SBetweenAnd (skel hi))
+          else EB (skel l) (SBin o) (skel r)
+      | _ => EB (skel l) (SBin o) (skel r)
+      end
   | ENot x => EN (skel x)
   | _ => EA e
   end.
 
 Definition sk_shape (p : pexpr) : shape :=
   match p with
-  | Pratt.EA _ _ a => shape_of a
-  | Pratt.EN _ _ _ => ShUnary
-  | Pratt.EB _ _ _ o _ => ShBinary o
+  | PrattT.EA _ _ a => shape_of a
+  | PrattT.EN _ _ _ => ShUnary
+  | PrattT.EB _ _ _ (SBin o) _ => ShBinary o
+  | PrattT.EB _ _ _ SBetweenAnd _ => ShBinary BAnd
   end.
 
-Definition pol_un (x : pexpr) : bool := writes_paren T BAnd (sk_shape x) SUnary.
-Definition pol_l (o : binop) (l : pexpr) : bool := writes_paren T o (sk_shape l) SLeft.
-Definition pol_r (o : binop) (r : pexpr) : bool := writes_paren T o (sk_shape r) SRight.
+Definition sop_bin (o : sop) : binop := match o with SBin o => o | SBetweenAnd => BBetween end.
 
-Definition prec (o : binop) : nat := match level b o with Some n => n | None => 0%nat end.
-Definition rmin (o : binop) : nat := S (prec o).
+Definition pol_un (x : pexpr) : bool := writes_paren T BAnd (sk_shape x) SUnary.
+Definition pol_l (o : sop) (l : pexpr) : bool := writes_paren T (sop_bin o) (sk_shape l) SLeft.
+Definition pol_r (o : sop) (r : pexpr) : bool := writes_paren T (sop_bin o) (sk_shape r) SRight.
+Definition pol_lo (o : sop) (x : pexpr) : bool := writes_paren T (sop_bin o) (sk_shape x) SBetweenLo.
+Definition pol_hi (o : sop) (x : pexpr) : bool := writes_paren T (sop_bin o) (sk_shape x) SBetweenHi.
+
+Definition prec (o : sop) : nat := match slevel b o with Some n => n | None => 0%nat end.
+Definition rmin (o : sop) : nat := S (prec o).
 Definition notp : nat := not_level b.
+Definition tern (o : sop) : option sop :=
+  match o with SBin o => if is_between o then Some SBetweenAnd else None | SBetweenAnd => None end.
 
 Definition tok_script (t : ptok) : script :=
   match t with
-  | Pratt.TA _ _ a => rexpr Q rq is_alpha b T false a
-  | Pratt.TL _ _ => [ws "("]
-  | Pratt.TR _ _ => [ws ")"]
-  | Pratt.TO _ _ o => [ws " "] ++ rbinop T o ++ [ws " "]
-  | Pratt.TN _ _ => [ws "NOT"; ws " "]
+  | PrattT.TA _ _ a => rexpr Q rq is_alpha b T false a
+  | PrattT.TL _ _ => [ws "("]
+  | PrattT.TR _ _ => [ws ")"]
+  | PrattT.TO _ _ (SBin o) => [ws " "] ++ rbinop T o ++ [ws " "]
+  | PrattT.TO _ _ SBetweenAnd => [ws " AND "]
+  | PrattT.TN _ _ => [ws "NOT"; ws " "]
   end.
 
-Definition abstract_rendering (e : expr Q) : list ptok :=
-  Pratt.render (expr Q) binop pol_un pol_l pol_r (skel e).
+Notation arender := (PrattT.render (expr Q) sop tern pol_un pol_l pol_r pol_lo pol_hi).
+Definition abstract_rendering (e : expr Q) : list ptok := arender (skel e).
 
 (* ---- (1) the script is the image of the abstract rendering ---- *)
 Lemma shape_of_skel e : sk_shape (skel e) = shape_of e.
-Proof. destruct e; reflexivity. Qed.
+Proof.
+  destruct e as [c|es|x|f args|l op r|sop0 q|v|vs|cs|cs es|k|ty x|whens els|v]; try reflexivity.
+  cbn [skel]. destruct r as [| | | |lo rop hi| | | | | | | | |]; try reflexivity.
+  destruct rop; try reflexivity. destruct (is_between op); reflexivity.
+Qed.
 
 Lemma flat_map_wrap p ts :
-  flat_map tok_script (Pratt.wrap (expr Q) binop p ts) = wrap p (flat_map tok_script ts).
+  flat_map tok_script (PrattT.wrap (expr Q) sop p ts) = wrap p (flat_map tok_script ts).
 Proof.
-  unfold Pratt.wrap, wrap. destruct p; [|reflexivity].
+  unfold PrattT.wrap, wrap. destruct p; [|reflexivity].
   cbn [flat_map tok_script app]. now rewrite flat_map_app.
 Qed.
 
-Lemma frag_op_not_between o : frag_op o = true -> is_between o = false.
-Proof. destruct o; cbn; congruence. Qed.
-
-Lemma frag_op_not_escape o : frag_op o = true -> binop_eqb BEscape o = false.
+Lemma escape_pattern (o1 : binop) : (match o1 with BEscape => true | _ => false end) = binop_eqb BEscape o1.
 Proof.
-  destruct o as [| | | | | | | | | | | | | | | | | | | | | | | | | | |c|pg|sl]; cbn; try congruence; try reflexivity.
-  - destruct pg; reflexivity.
-  - destruct sl; reflexivity.
+  destruct o1 as [| | | | | | | | | | | | | | | | | | | | | | | | | | |c|pg|sl]; try reflexivity;
+    [destruct pg|destruct sl]; reflexivity.
+Qed.
+Lemma and_pattern (o1 : binop) : (match o1 with BAnd => true | _ => false end) = binop_eqb BAnd o1.
+Proof.
+  destruct o1 as [| | | | | | | | | | | | | | | | | | | | | | | | | | |c|pg|sl]; try reflexivity;
+    [destruct pg|destruct sl]; reflexivity.
 Qed.
 
 Lemma same_is_binary_with (o : binop) (l : expr Q) :
@@ -122,61 +147,88 @@ Lemma left_paren_eq o (l : expr Q) :
   = writes_paren T o (shape_of l) SLeft.
 Proof. unfold writes_paren, drop_hp. now rewrite same_is_binary_with. Qed.
 
-(* in the fragment the right operand is never part of a ternary form or an AS-hack *)
-Lemma right_paren_frag o (r : expr Q) :
-  frag_op o = true -> frag r = true ->
+(* the right-operand decision of binary_expr is the table decision writes_paren .. SRight, hacks included *)
+Lemma right_paren_eq o (r : expr Q) :
   negb (t_drop_paren T (shape_key (shape_of r)) (oper_key (OBin o))) &&
     negb (is_like o && is_binary_with r (binop_eqb BEscape)) &&
     negb (is_between o && is_binary_with r (binop_eqb BAnd)) &&
     negb (binop_eqb o BAs && match r with ECustom _ => true | _ => false end)
   = writes_paren T o (shape_of r) SRight.
 Proof.
-  intros Ho Hr. unfold writes_paren, drop_hp. rewrite (frag_op_not_between o Ho). cbn [andb negb].
-  assert (E1 : is_binary_with r (binop_eqb BEscape) = false).
-  { destruct r; try reflexivity. cbn [is_binary_with]. cbn [frag] in Hr.
-    apply andb_prop in Hr as [Hr _]. apply andb_prop in Hr as [Hr _]. apply andb_prop in Hr as [Hr _].
-    now apply frag_op_not_escape. }
-  assert (E2 : (match shape_of r with ShBinary BEscape => true | _ => false end) = false).
-  { destruct r; try reflexivity. cbn [shape_of]. cbn [frag] in Hr.
-    apply andb_prop in Hr as [Hr _]. apply andb_prop in Hr as [Hr _]. apply andb_prop in Hr as [Hr _].
-    destruct op; try reflexivity. discriminate Hr. }
-  assert (E3 : (match r with ECustom _ => true | _ => false end) = false).
-  { destruct r; try reflexivity. discriminate Hr. }
-  assert (E4 : (match shape_of r with ShCustom => true | _ => false end) = false).
-  { destruct r; try reflexivity. discriminate Hr. }
-  rewrite E1, E2, E3, E4, !andb_false_r. cbn [negb]. now rewrite !andb_true_r.
+  unfold writes_paren, drop_hp.
+  assert (E1 : (match shape_of r with ShBinary BEscape => true | _ => false end) = is_binary_with r (binop_eqb BEscape)).
+  { destruct r; try reflexivity. cbn [shape_of is_binary_with]. apply escape_pattern. }
+  assert (E2 : (match shape_of r with ShBinary BAnd => true | _ => false end) = is_binary_with r (binop_eqb BAnd)).
+  { destruct r; try reflexivity. cbn [shape_of is_binary_with]. apply and_pattern. }
+  assert (E3 : (match shape_of r with ShCustom => true | _ => false end) = match r with ECustom _ => true | _ => false end).
+  { destruct r; reflexivity. }
+  now rewrite E1, E2, E3.
 Qed.
 
-Lemma sr_not_between o (r : expr Q) (X : expr Q -> expr Q -> script) :
-  is_between o = false ->
-  (match r with
-   | EBinary lo BAnd hi => if is_between o then X lo hi else rexpr Q rq is_alpha b T false r
-   | _ => rexpr Q rq is_alpha b T false r
-   end) = rexpr Q rq is_alpha b T false r.
-Proof. intros ->. destruct r; try reflexivity. destruct op; reflexivity. Qed.
+(* statement for a tree and, for a binary node, for its two operands (the bounds of BETWEEN are
+   operands of the operand) *)
+Definition link_at (e : expr Q) : Prop :=
+  frag e = true -> rexpr Q rq is_alpha b T false e = flat_map tok_script (arender (skel e)).
+Definition link_operands (e : expr Q) : Prop :=
+  match e with EBinary lo _ hi => link_at lo /\ link_at hi | _ => True end.
+
+Lemma link_aux e : link_at e /\ link_operands e.
+Proof.
+  induction e as [c|es|x IHx|f args|l IHl op r IHr|sop0 q|v|vs|cs|cs es|k|ty x IHx|whens els|v];
+    (split; [|try exact I]); unfold link_at;
+    try (intros Hf; cbn [skel PrattT.render flat_map tok_script]; now rewrite app_nil_r);
+    try (intros Hf; discriminate Hf).
+  - (* NOT *)
+    intros Hf. cbn [frag] in Hf. cbn [skel PrattT.render flat_map]. rewrite flat_map_wrap.
+    rewrite <- (proj1 IHx Hf). cbn [tok_script rexpr]. unfold pol_un, writes_paren, drop_hp.
+    now rewrite shape_of_skel.
+  - (* binary / ternary *)
+    intros Hf. cbn [frag] in Hf. apply andb_prop in Hf as [Hf Hr]. apply andb_prop in Hf as [Hf Hl].
+    apply andb_prop in Hf as [Hf Hbs]. apply andb_prop in Hf as [Ho He]. apply negb_true_iff in He.
+    cbn [rexpr]. rewrite He. rewrite (proj1 IHl Hl). unfold binary_expr.
+    rewrite (left_paren_eq op l), (right_paren_eq op r).
+    destruct (is_between op) eqn:Eb.
+    + (* x BETWEEN lo AND hi *)
+      unfold between_shape in Hbs. rewrite Eb in Hbs.
+      destruct r as [| | | |lo rop hi| | | | | | | | |]; try discriminate Hbs.
+      destruct rop; try discriminate Hbs. clear Hbs.
+      cbn [frag] in Hr. apply andb_prop in Hr as [Hr Hhi]. apply andb_prop in Hr as [Hr Hlo].
+      destruct IHr as [_ [Llo Lhi]].
+      cbn [skel]. rewrite Eb. cbn [PrattT.render tern]. rewrite Eb.
+      unfold between_bounds. rewrite (Llo Hlo), (Lhi Hhi).
+      rewrite !flat_map_app. cbn [flat_map]. rewrite !flat_map_wrap, !flat_map_app. cbn [flat_map].
+      rewrite !flat_map_wrap. cbn [tok_script].
+      unfold pol_l, pol_lo, pol_hi. cbn [sop_bin]. rewrite !shape_of_skel.
+      (* the right operand is written bare: the between hack *)
+      assert (Ew : writes_paren T op (shape_of (EBinary lo BAnd hi)) SRight = false).
+      { unfold writes_paren. cbn [shape_of]. rewrite Eb. cbn [andb negb]. now rewrite !andb_false_r. }
+      rewrite Ew. unfold wrap at 2. cbv iota.
+      unfold writes_paren at 2 3. unfold drop_hp.
+      rewrite <- !app_assoc. reflexivity.
+    + (* binary *)
+      rewrite (proj1 IHr Hr).
+      assert (Esr : (match r with
+                     | EBinary lo BAnd hi =>
+                         if false then between_bounds Q T op lo hi (rexpr Q rq is_alpha b T false lo) (rexpr Q rq is_alpha b T false hi)
+                         else flat_map tok_script (arender (skel r))
+                     | _ => flat_map tok_script (arender (skel r))
+                     end) = flat_map tok_script (arender (skel r))).
+      { destruct r as [| | | |lo rop hi| | | | | | | | |]; try reflexivity. destruct rop; reflexivity. }
+      assert (Esk : skel (EBinary l op r) = EB (skel l) (SBin op) (skel r)).
+      { cbn [skel]. destruct r as [| | | |lo rop hi| | | | | | | | |]; try reflexivity.
+        destruct rop; try reflexivity. now rewrite Eb. }
+      rewrite Esk. cbn [PrattT.render tern]. rewrite Eb.
+      rewrite flat_map_app. cbn [flat_map]. rewrite !flat_map_wrap.
+      unfold pol_l, pol_r. cbn [sop_bin]. rewrite !shape_of_skel. cbn [tok_script].
+      destruct r as [| | | |lo rop hi| | | | | | | | |]; try (rewrite <- !app_assoc; reflexivity).
+      destruct rop; rewrite <- !app_assoc; reflexivity.
+  - (* operands of a binary node *)
+    cbn [link_operands]. split; [apply IHl|apply IHr].
+Qed.
 
 Theorem rexpr_is_abstract_rendering e : frag e = true ->
   rexpr Q rq is_alpha b T false e = flat_map tok_script (abstract_rendering e).
-Proof.
-  unfold abstract_rendering.
-  induction e as [c|es|x IHx|f args|l IHl op r IHr|sop q|v|vs|cs|cs es|k|ty x IHx|whens els|v];
-    intros Hf; try (cbn [skel Pratt.render flat_map tok_script]; now rewrite app_nil_r);
-    try discriminate Hf.
-  - (* NOT *)
-    cbn [frag] in Hf. cbn [skel Pratt.render flat_map]. rewrite flat_map_wrap, <- (IHx Hf).
-    cbn [tok_script rexpr]. unfold pol_un, writes_paren, drop_hp. now rewrite shape_of_skel.
-  - (* binary *)
-    cbn [frag] in Hf. apply andb_prop in Hf as [Hf Hr]. apply andb_prop in Hf as [Hf Hl].
-    apply andb_prop in Hf as [Ho He]. apply negb_true_iff in He.
-    cbn [skel Pratt.render]. rewrite flat_map_app. cbn [flat_map]. rewrite !flat_map_wrap.
-    rewrite <- (IHl Hl), <- (IHr Hr). cbn [rexpr]. rewrite He.
-    rewrite (sr_not_between op r _ (frag_op_not_between op Ho)).
-    unfold binary_expr. unfold pol_l, pol_r. rewrite !shape_of_skel.
-    rewrite (right_paren_frag op r Ho Hr).
-    rewrite (left_paren_eq op l).
-    cbn [tok_script]. now rewrite <- !app_assoc.
-Qed.
-
+Proof. exact (proj1 (link_aux e)). Qed.
 (* ---- (2) safe rows make every tree of the fragment safe ---- *)
 Hypothesis rows_safe : bad_rows b T = [].
 
@@ -202,15 +254,19 @@ Proof.
     [..|contradiction|destruct pg|destruct sl]; cbn; repeat first [left; reflexivity | right].
 Qed.
 
+Lemma frag_binary_op l o r : frag (EBinary l o r) = true -> frag_op o = true.
+Proof.
+  cbn [frag]. intros H. apply andb_prop in H as [H _]. apply andb_prop in H as [H _].
+  apply andb_prop in H as [H _]. now apply andb_prop in H as [H _].
+Qed.
+
 Lemma shape_in (e : expr Q) : frag e = true -> In (shape_of e) all_shapes.
 Proof.
   intros Hf. unfold all_shapes.
-  destruct e as [c|es|x|f args|l op r|sop q|v|vs|cs|cs es|k|ty x|whens els|v]; try discriminate Hf;
+  destruct e as [c|es|x|f args|l op r|sop0 q|v|vs|cs|cs es|k|ty x|whens els|v]; try discriminate Hf;
     try (lazymatch goal with |- In (shape_of (EBinary _ _ _)) _ => fail | _ => idtac end;
          apply in_or_app; left; cbn; repeat first [left; reflexivity | right]).
-  apply in_or_app; right. cbn [shape_of]. apply in_map.
-  cbn [frag] in Hf. apply andb_prop in Hf as [Hf _]. apply andb_prop in Hf as [Hf _].
-  apply andb_prop in Hf as [Hf _]. now apply frag_op_in.
+  apply in_or_app; right. cbn [shape_of]. apply in_map. apply frag_op_in. now apply (frag_binary_op l op r).
 Qed.
 
 Lemma in_rows_lr o s : In o all_binops -> In s all_shapes ->
@@ -220,104 +276,177 @@ Proof.
     apply in_flat_map; exists s; (split; [exact Hs|]); cbn; tauto.
 Qed.
 
-Lemma in_rows_un s : In s all_shapes -> In (BAnd, s, SUnary) all_rows.
+Lemma in_rows_special s : In s all_shapes ->
+  In (BAnd, s, SUnary) all_rows /\
+  In (BBetween, s, SBetweenLo) all_rows /\ In (BBetween, s, SBetweenHi) all_rows /\
+  In (BNotBetween, s, SBetweenLo) all_rows /\ In (BNotBetween, s, SBetweenHi) all_rows.
 Proof.
-  intros Hs. unfold all_rows. apply in_or_app; right. apply in_flat_map. exists s. split; [exact Hs|cbn; tauto].
+  intros Hs. unfold all_rows. repeat split; apply in_or_app; right; apply in_flat_map; exists s;
+    (split; [exact Hs|cbn; tauto]).
 Qed.
 
-Lemma level_of_frag_op o : frag_op o = true -> level b o = Some (prec o).
+Lemma level_of_frag_op o : frag_op o = true -> level b o = Some (prec (SBin o)).
+Proof. unfold frag_op, prec. cbn [slevel]. destruct (level b o); [reflexivity|discriminate]. Qed.
+
+Notation safe := (PrattT.safe (expr Q) sop prec rmin notp tern pol_un pol_l pol_r pol_lo pol_hi).
+Notation top_ok := (PrattT.top_ok (expr Q) sop prec notp).
+Notation left_ok := (PrattT.left_ok (expr Q) sop prec rmin).
+
+(* the top operator of the skeleton of a binary node is the node's operator *)
+Lemma skel_binary l o r : exists r', skel (EBinary l o r) = EB (skel l) (SBin o) r'.
 Proof.
-  unfold frag_op, prec. destruct o; try discriminate; destruct (level b _); try discriminate; reflexivity.
+  cbn [skel]. destruct r as [| | | |lo rop hi| | | | | | | | |]; try (eexists; reflexivity).
+  destruct rop; try (eexists; reflexivity). destruct (is_between o); eexists; reflexivity.
 Qed.
 
-Notation safe := (Pratt.safe (expr Q) binop prec rmin notp pol_un pol_l pol_r).
-Notation top_ok := (Pratt.top_ok (expr Q) binop prec notp).
-Notation left_ok := (Pratt.left_ok (expr Q) binop prec rmin).
+(* an operand x may stand bare where level k is expected, if the table's level test says so *)
+Lemma top_ok_of_levels (x : expr Q) (k : nat) : frag x = true ->
+  (match shape_of x with
+   | ShUnary => leb_opt (Some k) (Some notp)
+   | ShBinary o1 => leb_opt (Some k) (level b o1)
+   | _ => true
+   end) = true -> top_ok (skel x) k.
+Proof.
+  intros Hx. destruct x as [c|es|y|f args|l o1 r|sop0 q|v|vs|cs|cs es|kw|ty y|whens els|v];
+    try (intros _; exact I).
+  - cbn [shape_of skel PrattT.top_ok leb_opt]. intros H. now apply Nat.leb_le in H.
+  - destruct (skel_binary l o1 r) as [r' ->]. cbn [shape_of PrattT.top_ok].
+    rewrite (level_of_frag_op o1 (frag_binary_op l o1 r Hx)). cbn [leb_opt]. intros H. now apply Nat.leb_le in H.
+Qed.
 
-(* the boolean row condition, read at a tree of the fragment, is the abstract local condition *)
 Lemma bare_right o (r : expr Q) : frag_op o = true -> frag r = true ->
-  bare_ok b o (shape_of r) SRight = true -> top_ok (skel r) (rmin o).
+  bare_ok b o (shape_of r) SRight = true -> top_ok (skel r) (rmin (SBin o)).
 Proof.
-  intros Ho Hr. unfold bare_ok. rewrite (level_of_frag_op o Ho).
-  destruct r; try (intros _; exact I); cbn [shape_of skel Pratt.top_ok].
-  - cbn [succ_opt leb_opt]. intros H. apply Nat.leb_le in H. exact H.
-  - cbn [frag] in Hr. apply andb_prop in Hr as [Hr _]. apply andb_prop in Hr as [Hr _].
-    apply andb_prop in Hr as [Hr _]. rewrite (level_of_frag_op _ Hr).
-    cbn [succ_opt leb_opt]. intros H. apply Nat.leb_le in H. exact H.
+  intros Ho Hr Hb. apply top_ok_of_levels; [exact Hr|]. unfold bare_ok in Hb. rewrite (level_of_frag_op o Ho) in Hb.
+  cbn [succ_opt] in Hb. unfold rmin. destruct (shape_of r); try reflexivity; exact Hb.
+Qed.
+
+Lemma bare_bound o (x : expr Q) sd : is_between o = true -> frag_op o = true -> frag x = true ->
+  (sd = SBetweenLo \/ sd = SBetweenHi) ->
+  bare_ok b o (shape_of x) sd = true -> top_ok (skel x) (rmin (SBin o)).
+Proof.
+  intros Eb Ho Hx Hsd Hb. apply top_ok_of_levels; [exact Hx|]. unfold bare_ok in Hb.
+  assert (El : level b BBetween = Some (prec (SBin o))).
+  { rewrite <- (level_of_frag_op o Ho). destruct o; try discriminate Eb; destruct b; reflexivity. }
+  rewrite El in Hb. cbn [succ_opt] in Hb. unfold rmin.
+  destruct Hsd as [-> | ->]; destruct (shape_of x); try reflexivity; exact Hb.
 Qed.
 
 Lemma bare_left o (l : expr Q) : frag_op o = true -> frag l = true ->
-  bare_ok b o (shape_of l) SLeft = true -> left_ok o (skel l).
+  bare_ok b o (shape_of l) SLeft = true -> left_ok (SBin o) (skel l).
 Proof.
   intros Ho Hl. unfold bare_ok. rewrite (level_of_frag_op o Ho).
-  destruct l; try (intros _; exact I); cbn [shape_of skel Pratt.left_ok]; [intros H; discriminate H|].
-  cbn [frag] in Hl. apply andb_prop in Hl as [Hl _]. apply andb_prop in Hl as [Hl _].
-  apply andb_prop in Hl as [Hl _]. rewrite (level_of_frag_op _ Hl).
-  cbn [succ_opt leb_opt ltb_opt]. intros H. apply andb_prop in H as [H1 H2].
-  apply Nat.leb_le in H1. apply Nat.ltb_lt in H2. unfold rmin. split; [exact H1|exact H2].
+  destruct l as [c|es|y|f args|l1 o1 r1|sop0 q|v|vs|cs|cs es|kw|ty y|whens els|v]; try (intros _; exact I).
+  - cbn [shape_of skel PrattT.left_ok]. intros H; discriminate H.
+  - destruct (skel_binary l1 o1 r1) as [r' ->]. cbn [shape_of PrattT.left_ok].
+    rewrite (level_of_frag_op o1 (frag_binary_op l1 o1 r1 Hl)).
+    cbn [succ_opt leb_opt ltb_opt]. intros H. apply andb_prop in H as [H1 H2].
+    apply Nat.leb_le in H1. apply Nat.ltb_lt in H2. unfold rmin. split; [exact H1|exact H2].
 Qed.
 
 Lemma bare_unary (x : expr Q) : frag x = true ->
   bare_ok b BAnd (shape_of x) SUnary = true -> top_ok (skel x) notp.
 Proof.
-  intros Hx. unfold bare_ok.
-  destruct x; try (intros _; exact I); cbn [shape_of skel Pratt.top_ok]; [intros _; apply Nat.le_refl|].
-  cbn [frag] in Hx. apply andb_prop in Hx as [Hx _]. apply andb_prop in Hx as [Hx _].
-  apply andb_prop in Hx as [Hx _]. rewrite (level_of_frag_op _ Hx).
-  cbn [leb_opt]. intros H. apply Nat.leb_le in H. exact H.
+  intros Hx Hb. apply top_ok_of_levels; [exact Hx|]. unfold bare_ok in Hb.
+  destruct (shape_of x); try reflexivity; [cbn [leb_opt]; apply Nat.leb_refl|exact Hb].
 Qed.
 
-Lemma not_ternary_right o (r : expr Q) : frag_op o = true -> frag r = true ->
-  is_ternary_part o (shape_of r) SRight = false.
+(* ESCAPE sits above LIKE in every dialect's table: the pattern / escape pair may stand bare to the right of LIKE *)
+Lemma escape_above_like o : is_like o = true -> leb_opt (succ_opt (level b o)) (level b BEscape) = true.
+Proof. destruct o; try discriminate; destruct b; reflexivity. Qed.
+
+Lemma and_below_between_bound o : is_between o = true -> frag_op o = true ->
+  (prec SBetweenAnd < rmin (SBin o))%nat.
 Proof.
-  intros Ho Hr. unfold is_ternary_part.
-  destruct r; try reflexivity. cbn [shape_of].
-  cbn [frag] in Hr. apply andb_prop in Hr as [Hr _]. apply andb_prop in Hr as [Hr _].
-  apply andb_prop in Hr as [Hr _].
-  destruct op; try reflexivity; [apply (frag_op_not_between o Ho)|discriminate Hr].
+  intros Eb Ho. unfold rmin, prec. cbn [slevel].
+  assert (El : level b BBetween = level b o) by (destruct o; try discriminate Eb; destruct b; reflexivity).
+  rewrite El. lia.
 Qed.
 
 Theorem frag_safe e : frag e = true -> safe (skel e).
 Proof.
-  induction e as [c|es|x IHx|f args|l IHl op r IHr|sop q|v|vs|cs|cs es|k|ty x IHx|whens els|v];
-    intros Hf; try exact I.
+  remember (PrattTProofs.size _ _ (skel e)) as n eqn:Hn. revert e Hn.
+  induction n as [n IHn] using lt_wf_ind. intros e Hn Hf.
+  assert (IH : forall x, (PrattTProofs.size _ _ (skel x) < n)%nat -> frag x = true -> safe (skel x)).
+  { intros x Hlt Hx. now apply (IHn _ Hlt x). }
+  destruct e as [c|es|x|f args|l op r|sop0 q|v|vs|cs|cs es|k|ty x|whens els|v]; try exact I.
   - (* NOT *)
-    cbn [frag] in Hf. cbn [skel Pratt.safe]. split; [now apply IHx|].
-    pose proof (row_ok_of_rows _ _ _ (in_rows_un _ (shape_in x Hf))) as Hrow.
+    cbn [frag] in Hf. cbn [skel PrattTProofs.size] in Hn. cbn [skel PrattT.safe].
+    split; [apply IH; [lia|exact Hf]|].
+    destruct (in_rows_special _ (shape_in x Hf)) as [Hin _].
+    pose proof (row_ok_of_rows _ _ _ Hin) as Hrow.
     unfold row_ok in Hrow. cbn [is_ternary_part orb] in Hrow.
     apply orb_prop in Hrow as [Hw|Hb].
     + left. unfold pol_un. now rewrite shape_of_skel.
     + right. now apply bare_unary.
-  - (* binary *)
+  - (* binary / ternary *)
+    pose proof Hf as Hf0.
     cbn [frag] in Hf. apply andb_prop in Hf as [Hf Hr]. apply andb_prop in Hf as [Hf Hl].
-    apply andb_prop in Hf as [Ho _].
-    cbn [skel Pratt.safe]. split; [now apply IHl|]. split; [now apply IHr|].
+    apply andb_prop in Hf as [Hf Hbs]. apply andb_prop in Hf as [Ho _].
     destruct (in_rows_lr op (shape_of l) (frag_op_in op Ho) (shape_in l Hl)) as [HinL _].
-    destruct (in_rows_lr op (shape_of r) (frag_op_in op Ho) (shape_in r Hr)) as [_ HinR].
-    pose proof (row_ok_of_rows _ _ _ HinL) as HrowL. pose proof (row_ok_of_rows _ _ _ HinR) as HrowR.
-    unfold row_ok in HrowL, HrowR. cbn [is_ternary_part orb] in HrowL.
-    rewrite (not_ternary_right op r Ho Hr) in HrowR. cbn [orb] in HrowR.
-    split.
-    + apply orb_prop in HrowL as [Hw|Hb].
-      * left. unfold pol_l. now rewrite shape_of_skel.
-      * right. now apply bare_left.
-    + apply orb_prop in HrowR as [Hw|Hb].
-      * left. unfold pol_r. now rewrite shape_of_skel.
-      * right. now apply bare_right.
+    pose proof (row_ok_of_rows _ _ _ HinL) as HrowL.
+    unfold row_ok in HrowL. cbn [is_ternary_part orb] in HrowL.
+    assert (HL : pol_l (SBin op) (skel l) = true \/ left_ok (SBin op) (skel l)).
+    { apply orb_prop in HrowL as [Hw|Hb].
+      - left. unfold pol_l. cbn [sop_bin]. now rewrite shape_of_skel.
+      - right. now apply bare_left. }
+    destruct (is_between op) eqn:Eb.
+    + (* x BETWEEN lo AND hi *)
+      unfold between_shape in Hbs. rewrite Eb in Hbs.
+      destruct r as [| | | |lo rop hi| | | | | | | | |]; try discriminate Hbs.
+      destruct rop; try discriminate Hbs. clear Hbs.
+      cbn [frag] in Hr. apply andb_prop in Hr as [Hr Hhi]. apply andb_prop in Hr as [Hr Hlo].
+      cbn [skel] in Hn |- *. rewrite Eb in Hn |- *. cbn [PrattTProofs.size] in Hn.
+      cbn [PrattT.safe tern]. rewrite Eb.
+      split; [reflexivity|]. split; [now apply and_below_between_bound|].
+      split; [apply IH; [lia|exact Hl]|]. split; [apply IH; [lia|exact Hlo]|]. split; [apply IH; [lia|exact Hhi]|].
+      split; [exact HL|].
+      assert (Hb : op = BBetween \/ op = BNotBetween) by (destruct op; try discriminate Eb; auto).
+      destruct (in_rows_special _ (shape_in lo Hlo)) as (_ & Hlo1 & _ & Hlo2 & _).
+      destruct (in_rows_special _ (shape_in hi Hhi)) as (_ & _ & Hhi1 & _ & Hhi2).
+      split.
+      * assert (Hrow : row_ok b T op (shape_of lo) SBetweenLo = true)
+          by (destruct Hb as [-> | ->]; now apply row_ok_of_rows).
+        unfold row_ok in Hrow. cbn [is_ternary_part orb] in Hrow. apply orb_prop in Hrow as [Hw|Hbare].
+        -- left. unfold pol_lo. cbn [sop_bin]. now rewrite shape_of_skel.
+        -- right. apply (bare_bound op lo SBetweenLo Eb Ho Hlo); [now left|exact Hbare].
+      * assert (Hrow : row_ok b T op (shape_of hi) SBetweenHi = true)
+          by (destruct Hb as [-> | ->]; now apply row_ok_of_rows).
+        unfold row_ok in Hrow. cbn [is_ternary_part orb] in Hrow. apply orb_prop in Hrow as [Hw|Hbare].
+        -- left. unfold pol_hi. cbn [sop_bin]. now rewrite shape_of_skel.
+        -- right. apply (bare_bound op hi SBetweenHi Eb Ho Hhi); [now right|exact Hbare].
+    + (* binary *)
+      assert (Esk : skel (EBinary l op r) = EB (skel l) (SBin op) (skel r)).
+      { cbn [skel]. destruct r as [| | | |lo rop hi| | | | | | | | |]; try reflexivity.
+        destruct rop; try reflexivity. now rewrite Eb. }
+      rewrite Esk in Hn |- *. cbn [PrattTProofs.size] in Hn. cbn [PrattT.safe tern]. rewrite Eb.
+      split; [apply IH; [lia|exact Hl]|]. split; [apply IH; [lia|exact Hr]|]. split; [exact HL|].
+      destruct (in_rows_lr op (shape_of r) (frag_op_in op Ho) (shape_in r Hr)) as [_ HinR].
+      pose proof (row_ok_of_rows _ _ _ HinR) as HrowR. unfold row_ok in HrowR.
+      destruct (is_ternary_part op (shape_of r) SRight) eqn:Et.
+      * (* the pattern / escape pair to the right of LIKE *)
+        right. unfold is_ternary_part in Et.
+        destruct r as [| | | |p rop c| | | | | | | | |]; try discriminate Et. cbn [shape_of] in Et.
+        destruct rop; try discriminate Et; [now rewrite Eb in Et|].
+        apply top_ok_of_levels; [exact Hr|]. cbn [shape_of]. unfold rmin.
+        pose proof (escape_above_like op Et) as He. rewrite (level_of_frag_op op Ho) in He.
+        cbn [succ_opt] in He. exact He.
+      * cbn [orb] in HrowR. apply orb_prop in HrowR as [Hw|Hbare].
+        -- left. unfold pol_r. cbn [sop_bin]. now rewrite shape_of_skel.
+        -- right. now apply bare_right.
 Qed.
 
 Lemma prec_le_rmin o : (prec o <= rmin o)%nat.
 Proof. unfold rmin. lia. Qed.
 
 (* the abstract rendering of a tree of the fragment parses back to the tree's skeleton, and to
-   nothing else (C05_parse_unique), whatever closes the expression afterwards *)
+   nothing else (parse_unique), whatever closes the expression afterwards *)
 Theorem fragment_parses_back e rest : frag e = true ->
-  Pratt.stops (expr Q) binop prec 0 rest ->
-  Pratt.P (expr Q) binop prec rmin notp 0 (abstract_rendering e ++ rest) (skel e) rest.
+  PrattT.stops (expr Q) sop prec 0 rest ->
+  PrattT.P (expr Q) sop prec rmin notp tern 0 (abstract_rendering e ++ rest) (skel e) rest.
 Proof.
   intros Hf Hst. unfold abstract_rendering.
-  apply (parse_render (expr Q) binop prec rmin notp prec_le_rmin pol_un pol_l pol_r (skel e) rest);
+  apply (parse_render (expr Q) sop prec rmin notp tern prec_le_rmin pol_un pol_l pol_r pol_lo pol_hi (skel e) rest);
     [now apply frag_safe|exact Hst].
 Qed.
 End Link.
-
